@@ -101,20 +101,20 @@ type World struct {
 	realLbtcWatcher swap.TxWatcher
 	// rw, when set (cfg.RealWallets), puts the REAL wallet adapters and validators under the node: lnd.Client over
 	// fake gRPC clients for Bitcoin, onchain.LiquidOnChain over a fake wallet for Liquid
-	rw  *realWallets
-	dir string
-	db              *bbolt.DB
-	store           *logStore
-	rs              swap.RequestedSwapsStore
-	ps              *premium.Setting
-	pol             *simPolicy
-	ln              *simLN
-	btc             *simChain
-	lbtc            *simChain
-	msgr            *simMessenger
-	mgr             *simManager
-	svc             *swap.SwapService
-	tmr             *swap.VerifTimeouts
+	rw    *realWallets
+	dir   string
+	db    *bbolt.DB
+	store *logStore
+	rs    swap.RequestedSwapsStore
+	ps    *premium.Setting
+	pol   *simPolicy
+	ln    *simLN
+	btc   *simChain
+	lbtc  *simChain
+	msgr  *simMessenger
+	mgr   *simManager
+	svc   *swap.SwapService
+	tmr   *swap.VerifTimeouts
 
 	obs           []Obs
 	effects       int  // number of effectful calls so far (crash index)
@@ -136,6 +136,7 @@ type World struct {
 	cancelTried   map[string]bool // swap id -> the swap went through State_SendCancel
 	btcOn, lbtcOn bool
 	policyPath    string
+	deferred      []func() // environment actions that follow the current step
 }
 
 type WorldCfg struct {
@@ -879,6 +880,28 @@ func (l *simLN) AddPaymentNotifier(swapId string, payreq string, it swap.Invoice
 	}
 	l.notifiers[swapId+"/"+it.String()] = true
 	l.w.note(Obs{Kind: "notifier", Swap: l.w.name(swapId), A: map[string]string{"type": it.String()}})
+	// like the real back-ends (lnd SubscribeSingleInvoice, CLN waitinvoice): a notifier registered for an invoice
+	// that is already settled fires at once, from the back-end's own goroutine (here: after the current step)
+	if inv, ok := l.invoices[payreq]; ok && inv.ours && inv.paidToUs {
+		l.w.deferred = append(l.w.deferred, func() {
+			if l.payCb != nil && !l.w.dead && l.notifiers[swapId+"/"+it.String()] {
+				l.w.note(Obs{Kind: "notifier-refire", Swap: l.w.name(swapId), A: map[string]string{"type": it.String()}})
+				l.payCb(swapId, it)
+			}
+		})
+	}
+}
+
+// runDeferred runs what the environment does "right after" the current step (callbacks from back-end goroutines)
+func (w *World) runDeferred() {
+	for k := 0; k < 10 && len(w.deferred) > 0; k++ {
+		q := w.deferred
+		w.deferred = nil
+		for _, f := range q {
+			f()
+		}
+	}
+	w.deferred = nil
 }
 func (l *simLN) CanSpend(amountMsat uint64) error {
 	if f := l.w.fault("canspend"); f != "" {
